@@ -1,10 +1,37 @@
 #!/bin/sh
-# Build the framework offline from files on disk: the Coq development (full .vo build)
-# and the Rust harness against /repo's working tree (hooks on via harness/.cargo/config.toml).
+# Build the framework offline from files on disk: the Coq development of every claimed property
+# (full .vo build) and the Rust harness against /repo's working tree (hooks on via harness/.cargo/config.toml).
 set -e
 cd "$(dirname "$0")"
 export CARGO_NET_OFFLINE=true
-python3 -c "import sys; sys.path.insert(0,'lib'); import vcheck; vcheck.coq_makefile()"
-(cd coq && timeout 3000 make -j16 >/dev/null 2>coq_build.log || { tail -30 coq_build.log; exit 1; })
-(cd harness && timeout 3000 cargo build --offline 2>&1 | tail -3)
+TARGETS=$(python3 - <<'PY'
+import importlib, json, os, sys
+sys.path.insert(0, "lib"); sys.path.insert(0, ".")
+import vcheck
+vcheck.coq_makefile()
+t = ["theories/Base/Harness.vo"]
+for f in sorted(os.listdir("props")):
+    if f.startswith("c") and f.endswith(".py"):
+        m = importlib.import_module("props." + f[:-3])
+        if getattr(m, "MANIFEST", None) and hasattr(m, "PROP"):
+            t += m.PROP["coq_targets"]
+        elif getattr(m, "MANIFEST", None) and hasattr(m, "COQ_TARGETS"):
+            t += m.COQ_TARGETS
+print(" ".join(dict.fromkeys(t)))
+PY
+)
+(cd coq && timeout 3000 make -j16 $TARGETS >/dev/null 2>coq_build.log || { tail -30 coq_build.log; exit 1; })
+BINS=$(python3 - <<'PY'
+import importlib, os, sys
+sys.path.insert(0, "lib"); sys.path.insert(0, ".")
+b = []
+for f in sorted(os.listdir("props")):
+    if f.startswith("c") and f.endswith(".py"):
+        m = importlib.import_module("props." + f[:-3])
+        if getattr(m, "MANIFEST", None):
+            b.append("--bin " + (m.PROP.get("bin", f[:-3]) if hasattr(m, "PROP") else f[:-3]))
+print(" ".join(b))
+PY
+)
+(cd harness && timeout 3000 cargo build --offline $BINS 2>&1 | tail -3)
 echo setup done
